@@ -277,7 +277,7 @@ def _arm_for_key(ps: ast.FunctionDef, key: str) -> Optional[ast.If]:
 
 
 def r18_4(prog: Program, chk: Check) -> None:
-    chk.rule("R18.4", "validation discipline: every key arm raises, type-checks the value before use, or hands it to the option's parse(); every parse() raises on a wrong type", floor=12)
+    chk.rule("R18.4", "validation discipline: every key arm raises, type-checks the value before use, or hands it to the option's parse(); every parse() raises on a wrong type", floor=8)
     ps = prog.func("options", "_parse_config_section")
     need_locals(ps, "key", "value", "module_path", "override", "option_cls")
     site = prog.site("options", ps)
